@@ -2,6 +2,7 @@ import ChythonModel.Py.Wire
 import ChythonModel.Py.Hash
 import ChythonModel.Model.Morgan
 import ChythonModel.Model.ChiralMorgan
+import ChythonModel.Model.C01Check
 import ChythonModel.Gen.PeriodicTable
 /-!
 Line-protocol driver for C01. Requests are `<op> <int> …`.
@@ -9,6 +10,7 @@ Line-protocol driver for C01. Requests are `<op> <int> …`.
   order  N (id z iso(0=None) charge radical implH(-1=None) inRing deg (nbr order)^deg)^N     Morgan.atoms_order
   morgan K (n w)^K B (n deg (m b)^deg)^B                                                     _morgan(atoms, bonds)
   cmorgan N (id z iso charge radical implH inRing stereo(-1|0|1) deg (nbr order bstereo(-1|0|1))^deg)^N           _chiral_morgan
+  same   K (old new)^K <order-wire of a> <order-wire of b>                                    C01Check.checkSame (proved checker)
   hash   z iso charge radical implH inRing                                                   hash(atom)  (Element.__hash__)
   tuple  i0 i1 …                                                                             hash((i0, i1, …))
 
@@ -49,6 +51,20 @@ def parseView (xs : List Int) : Option MolView :=
       some ⟨rows.map (fun r => (r.1, r.2.1)),
             rows.map (fun r => (r.1, r.2.2.map fun (mb : Nat × Int) => (mb.1, ({ order := mb.2.toNat } : Bond))))⟩
     | _ => none
+  | [] => none
+
+def viewOfRows (rows : List (Nat × HAtom × List (Nat × Int))) : MolView :=
+  ⟨rows.map (fun r => (r.1, r.2.1)),
+   rows.map (fun r => (r.1, r.2.2.map fun (mb : Nat × Int) => (mb.1, ({ order := mb.2.toNat } : Bond))))⟩
+
+/-- one molecule from the front of the list -/
+def parseViewPrefix (xs : List Int) : Option (MolView × List Int) :=
+  match xs with
+  | n :: rest =>
+    if n < 0 then none else
+    match parseViewAtoms n.toNat rest with
+    | some (rows, r) => some (viewOfRows rows, r)
+    | none => none
   | [] => none
 
 def parseNbS : Nat → List Int → Option (List (Nat × Bond) × List Int)
@@ -110,6 +126,16 @@ def handleInts (op : String) (xs : List Int) : Option String :=
         | .notModelled => some "notmodelled"
         | .fuelOut => some "fuelout"
       | _ => none
+    | [] => none
+  | "same" =>
+    match xs with
+    | k :: rest => do
+      if k < 0 then none
+      let (mp, r1) ← parseWeights k.toNat rest
+      let (a, r2) ← parseViewPrefix r1
+      let (b, r3) ← parseViewPrefix r2
+      if !r3.isEmpty then none
+      some (if C01Check.checkSame (mp.map fun kv => (kv.1, kv.2.toNat)) a b then "ok 1" else "ok 0")
     | [] => none
   | "morgan" =>
     match xs with
